@@ -280,8 +280,10 @@ def random_pair(N, L=1, device='cpu'):
     g2: int (2*N) or (L, 2*N) - binary representation of destabilizer.
     '''
     g1, g2 = torch.randint(0, 2, (L, 2*N), device=device), torch.randint(0, 2, (L, 2*N), device=device)
-    while (g1 == 0).all(): # resample g1 if it is all zero
-        g1 = torch.randint(0, 2, (L, 2*N), device=device)
+    zero = (g1 == 0).all(dim=-1)
+    while zero.any(): # resample every g1 that is all zero
+        g1[zero] = torch.randint(0, 2, (int(zero.sum()), 2*N), device=device)
+        zero = (g1 == 0).all(dim=-1)
     g1, g2 = impose_leading_noncommutivity(g1, g2)
     return g1.squeeze(0).to(torch.float32), g2.squeeze(0).to(torch.float32)
 
